@@ -329,7 +329,7 @@ def run(chk):
 
 def replay(chk, payload):
     c = payload["failure"]["input"]
-    if "Mtot" in c:
+    if isinstance(c, dict) and "Mtot" in c and "M" in c and "f" in c:
         c = dict(M=[C.unjson_float(x) for x in c["M"]], N=[C.unjson_float(x) for x in c["N"]], Mtot=c["Mtot"], f=c["f"])
         out = impl_fbh(c["M"], c["N"], c["Mtot"], c["f"])
         print("implementation:", out)
